@@ -658,9 +658,12 @@ pub fn try_all_parsers(m: &mut EM, s: &str, fmts: &[&str], k: usize) {
 }
 
 /// representatives of the character classes used for mutation
-pub const CLASS_REPS: [&str; 22] = [
+pub const CLASS_REPS: [&str; 26] = [
     "0", "9", "-", ":", ".", "T", " ", "Z", "+", "a", "%", "é", "€", "𝄞", "٣", "１", "\u{0}", "\t", "?", "e", "μ", "Y",
+    // white space of two and three bytes (char::is_whitespace is true for them, and str::trim removes them)
+    "\u{a0}", "\u{85}", "\u{2003}", "\u{3000}",
 ];
+pub const WIDE_BLANKS: [char; 5] = ['\u{a0}', '\u{85}', '\u{2003}', '\u{3000}', '\u{2028}'];
 
 pub fn mutate(rng: &mut Rng, s: &str) -> String {
     let chars: Vec<char> = s.chars().collect();
@@ -760,6 +763,29 @@ pub fn c13(rec: &mut Rec, lm: &Landmarks, rng: &mut Rng, thorough: bool) {
     for s in &skeletons {
         k += 1;
         try_all_parsers(&mut m, s, &fmts, k * 12); // k*12: every branch of the selection above
+    }
+    // every blank of every skeleton replaced by white space of two and three bytes, and such a blank put before and
+    // after the sentence (a parser that finds the blank with is_whitespace must not assume it is one byte wide)
+    for s in &skeletons {
+        let cs: Vec<char> = s.chars().collect();
+        for (wi, wb) in WIDE_BLANKS.iter().enumerate() {
+            let mut variants: Vec<String> = Vec::new();
+            for (i, c) in cs.iter().enumerate() {
+                if *c == ' ' {
+                    let mut v = cs.clone();
+                    v[i] = *wb;
+                    variants.push(v.into_iter().collect());
+                }
+            }
+            if wi < 2 && !cs.is_empty() {
+                variants.push(format!("{wb}{s}"));
+                variants.push(format!("{s}{wb}"));
+            }
+            for t in variants {
+                k += 1;
+                try_all_parsers(&mut m, &t, &fmts, k * 12);
+            }
+        }
     }
     // (format, input) pairs that reach the error arms of Format::parse which no rendered text reaches: a word that
     // is no month / weekday name, digits where a name or a time scale is expected, a name where digits are, an
